@@ -604,6 +604,7 @@ pid_t usim_fork(void)
 		G.in_fork_child = 1;
 		G.ntimed_frozen = 0;
 		me->stall_ord = 0;
+		me->stall_armed = 0;
 		G.solo_tid = -1;
 		G.stall_victim = -2;
 		for (i = 0; i < US_NSTREAMS + 2; i++)
@@ -619,8 +620,8 @@ pid_t usim_fork(void)
 		if (!WIFEXITED(st))
 			usim_bug("forked child died with status %#x", st);
 		if (WEXITSTATUS(st) == 42) {
-			/* child already wrote a violation record */
-			_exit(0);
+			/* child already wrote a violation record (a child that forked itself passes the verdict up) */
+			_exit(G.in_fork_child ? 42 : 0);
 		}
 		if (WEXITSTATUS(st) == 43)
 			rt_finish(RS_INCONCLUSIVE, "stepcap", "forked child hit the step cap");
